@@ -530,7 +530,7 @@ pub fn run(ctx: &Ctx) -> i32 {
         seed: ctx.seed,
         scenarios: if super::miri() { 2 } else { 1 + tier.pick(160, 8_000) },
         threads: super::threads(),
-        watchdog: Duration::from_secs(300),
+        watchdog: Duration::from_secs(if super::miri() { 3_000 } else { 300 }),
         budget: Duration::from_secs(tier.pick(100, 900)),
         only: ctx.only,
     };
